@@ -34,6 +34,7 @@ type c19Inv struct {
 	baseIdx   int             // (sweep cases: 1 + index of the fault-free invocation in the round)
 	RefKey    string          `json:"-"`
 	HasLink   bool            `json:"has_link,omitempty"`
+	DirAtOut  bool            `json:"dir_at_output,omitempty"` // a DIRECTORY stands where an output file belongs (possibly the one that holds the input): failing is legitimate, moving or emptying it is not
 	Sibling   bool            `json:"sibling,omitempty"` // files with names derived from the input's name stand next to it
 	// StatFaults: the stat faults that fired, grouped by the Transpile call they fired in and keyed
 	// by (path, n-th stat of that path within the call). The import resolution treats a failing
@@ -218,7 +219,25 @@ func c19Gen(r *Run, rng *gen.Rng, corpus []string) *c19Inv {
 	}
 	mount := rng.Pick([]string{"/sim/m", "/w/my proj", "/home/u/src", "/home/u/.dotfiles/p", "/w/proj-1.2/src", "/w/100% (x)", "/w/projet-été", "/w/greeter:v2", "/w/backup-2026-09-24T10:30:00"})
 	exe := rng.Pick([]string{"/sim/x", "/opt/tsh/bin"})
+	// an input that looks like somebody's temporary file is most interesting where temporary files
+	// are made: in the output directory itself
+	tmpLike := strings.Contains(path.Base(main), "tmp") || strings.ContainsAny(path.Base(main), "~#") || strings.HasSuffix(main, ".swp") || strings.HasSuffix(main, ".lock")
 	outAbs := rng.Pick([]string{"/sim/out", "/sim/out", "/w/build dir", mount, "/sim/bash", "/sim/batch", "/sim/-t", "/sim/out.d/v1.2", "/sim/build%20out", "/sim/out [1]", "/sim/ausgabe-ü", "/sim/出力", "/sim/out dir ", "/sim/ lead"})
+	if tmpLike && path.Dir(main) == "." && rng.Chance(60) {
+		outAbs = mount
+	}
+	if rng.Chance(2) {
+		// the source tree lives in a directory that is named like the output file and stands in
+		// the output directory: tsh -i D/prog.sh/prog.tsh -o D
+		b0 := path.Base(main)
+		outAbs = "/sim/out"
+		mount = path.Join(outAbs, b0[:len(b0)-len(path.Ext(b0))]+"."+rng.Pick([]string{"sh", "bat"}))
+		if path.Dir(main) == "." && b0[:len(b0)-len(path.Ext(b0))] != "" && !strings.HasPrefix(b0, ".") {
+			inv.DirAtOut = true
+		} else {
+			mount = "/sim/m"
+		}
+	}
 	files := c13World(gw, r.Env, mount, exe)
 	if outAbs != mount {
 		files = append(files, simrt.FileSpec{Path: outAbs, Dir: true})
@@ -236,6 +255,14 @@ func c19Gen(r *Run, rng *gen.Rng, corpus []string) *c19Inv {
 		for _, t := range []string{"bash", "batch"} {
 			if rng.Chance(60) {
 				p := path.Join(outAbs, stem+"."+extOf[t])
+				if rng.Chance(6) && outAbs != mount {
+					files = append(files, simrt.FileSpec{Path: p, Dir: true})
+					if rng.Chance(60) {
+						files = append(files, simrt.FileSpec{Path: path.Join(p, "keep.txt"), Data: []byte("inside a directory named like the output\n")})
+					}
+					inv.DirAtOut = true
+					continue
+				}
 				if rng.Chance(30) {
 					// an older output that is a symbolic link: to the other target's output, to the
 					// input, to an unrelated file, to nothing, to a directory
@@ -462,7 +489,7 @@ func c19Gen(r *Run, rng *gen.Rng, corpus []string) *c19Inv {
 		b.IO += 60 * len(inv.Targets)
 		b.Ticks += 2_000_000 * int64(len(inv.Targets))
 	}
-	if rng.Chance(40) {
+	if rng.Chance(40) || tmpLike {
 		// files have ages: written a second ago, minutes, days or years ago, or (a clock that was
 		// wrong once) in the future; without this every file of the world is as old as the process
 		ages := []int64{0, 1, 59, 601, 3600, 2 * 86400, 400 * 86400, -3600}
@@ -824,7 +851,7 @@ func c19Judge(inv *c19Inv, res *TshResult, refs map[string]*c19Ref, st *c19Stats
 		return "", ""
 	}
 	// exit != 0
-	if inv.Valid && allAccepted && !faultFired {
+	if inv.Valid && allAccepted && !faultFired && !inv.DirAtOut {
 		clause("1:must-succeed")
 		return "nonzero-exit-on-valid-invocation", fmt.Sprintf("exit=%d stderr=%s", res.Exit, firstLines(res.Stderr, 2))
 	}
